@@ -363,7 +363,7 @@ fn c14(p: &Prog, rec: &mut Rec, tier: u8) {
     // operations, skip_branch): such a decision is never advanced (a restricted run may well have MORE iterations than
     // the unrestricted one - conflicts found inside a region backtrack to an earlier, coarser decision)
     if rec.idx % 4 == 0 && rec.viol.is_empty() {
-        for ctrl in [3u8, 5, 4] {
+        for ctrl in [3u8, 5, 4, 11] {
             if ctrl == 5 && p.threads.len() < 2 {
                 continue;
             }
@@ -376,6 +376,22 @@ fn c14(p: &Prog, rec: &mut Rec, tier: u8) {
             }
             let repc = pathmon::check(&rc.paths, None, true);
             add_path_viol(rec, &repc, &format!("ctrl {}: ", ctrl));
+            // the same under a preemption bound (conservative backtrack points must respect the regions too)
+            for bound in if ctrl == 3 || ctrl == 11 { vec![0usize, 1] } else { vec![] } {
+                let mut cfg = base_cfg(tier);
+                cfg.ctrl = ctrl;
+                cfg.preemption_bound = Some(bound);
+                let rb = run(p, &cfg);
+                account(rec, &rb);
+                match rb.kind() {
+                    Some(PanicKind::IterCap) => {}
+                    Some(k) => rec.v("unexpected_panic", format!("{} @ {}", k.short(), last_panic_file()), format!("ctrl {} with preemption bound {}: the unbounded run of the same program returns normally, this one panicked: {}", ctrl, bound, rb.panic.clone().unwrap_or_default().lines().next().unwrap_or(""))),
+                    None => {
+                        let repb = pathmon::check(&rb.paths, Some(bound), true);
+                        add_path_viol(rec, &repb, &format!("ctrl {} bound {}: ", ctrl, bound));
+                    }
+                }
+            }
         }
     }
     rec.nontrivial = r.iters >= 2;
